@@ -26,7 +26,7 @@ def c01(run):
     rng = random.Random(run.seed)
     srcs = fam(run, core=3 if run.tier == "quick" else 12, rnd=40)
     cases = units.product_unit(run, fd, srcs, [{"tbl": ""}], tag="product", san=True)
-    units.trace_unit(run, cases, rng, per_case=8 if run.tier == "quick" else 30, scripts=False, tag="tokens")
+    units.trace_unit(run, cases, rng, per_case=8 if run.tier == "quick" else 30, scripts=False, tag="tokens", full_cover=600 if run.tier == "quick" else 3000)
     run.assumptions += ["rule sets are sampled (each one is decided for all inputs by the product check)",
                         "Render() (lib/vf/pattern.py) writes the manual's concrete syntax"]
 
@@ -112,10 +112,17 @@ def c06(run):
     fd = build.build_flex()
     rng = random.Random(run.seed)
     q = run.tier == "quick"
-    srcs = fam(run, profiles=("trail", "anch", "bol", "mix"), core=6 if q else 20, rnd=60)
+    srcs = fam(run, profiles=("trail", "anch", "bol", "bar", "mix"), core=6 if q else 20, rnd=60)
     cfgs = [{"tbl": ""}, {"tbl": "-Cf"}, {"tbl": "-CF"}, {"tbl": "", "reject": True, "interactive": False}]
     cases = units.product_unit(run, fd, srcs, cfgs, tag="product", san=True)
-    units.trace_unit(run, [c for c in cases if c.status == "ok"], rng, per_case=6 if q else 20, tag="traces")
+    units.trace_unit(run, [c for c in cases if c.status == "ok"], rng, per_case=6 if q else 20, tag="traces", full_cover=600 if q else 3000)
+    def bar_probe(sub):
+        P = rulesets.P
+        r1 = rulesets.rule(P.chr_(97), P.chr_(98)); r1["bar"] = True
+        src = rulesets.ruleset([r1, rulesets.rule(P.chr_(99)), rulesets.rule(P.chr_(98))], name="probe-bar-after-trailing-context")
+        cs = units.product_unit(sub, fd, [src], [{}], tag="p", san=True)
+        units.trace_unit(sub, cs, random.Random(1), per_case=1, tag="t", scripts=False, inputs_fn=lambda c, r, n: [bytes([97, 98, 99])])
+    run.probe("bar-after-trailing-context", bar_probe)
     run.assumptions += ["rule sets for which flex prints 'dangerous trailing context' are skipped (as the property allows)",
                         "whether a rule is compiled as *variable* trailing context is taken from the artifact (DESIGN.md C06)"]
 
@@ -198,7 +205,7 @@ def c05(run):
     cfgs = [{"tbl": "", "stack": True}, {"tbl": "", "scopes": True}, {"tbl": "-Cf"}, {"tbl": "", "reject": True}]
     cases = units.product_unit(run, fd, srcs, cfgs, tag="product", san=True)
     ok = [c for c in cases if c.status == "ok" and not c.cfg.get("scopes")]
-    units.trace_unit(run, ok, rng, per_case=10 if q else 40, tag="sctraces")
+    units.trace_unit(run, ok, rng, per_case=10 if q else 40, tag="sctraces", full_cover=400 if q else 3000)
     # deep stacks / underflow
     deep = [c for c in ok if c.cfg.get("tbl") == "" and not c.cfg.get("reject")][:12 if q else 60]
     scr = {}
